@@ -62,7 +62,7 @@ func genReplica(c *Ctx) error {
 		check("join")
 		steps := r.Range(4, 12)
 		for i := 0; i < steps; i++ {
-			switch k := r.Intn(13); {
+			switch k := r.Intn(14); {
 			case k < 3: // legitimate incremental
 				if out := do("sapply " + v.randomCommit(6)); out == "ok" {
 					applied++
@@ -110,6 +110,11 @@ func genReplica(c *Ctx) error {
 				spec[0], spec[1] = fmt.Sprint(v.txid+2), fmt.Sprint(v.txid+2)
 				do(pick(r, []string{"sapply ", "txapply "}) + strings.Join(spec, " "))
 				sig.WriteString(",badtxid")
+			case k == 12 && v.txid >= 3: // a multi-transaction (compacted) file that overlaps the position: first TXID at or below it, last = position+1, carrying the current checksum
+				spec := strings.Fields(v.peekCommit())
+				spec[0], spec[1] = fmt.Sprint(v.txid-uint64(r.Range(0, 1))), fmt.Sprint(v.txid+1)
+				do(pick(r, []string{"sapply ", "txapply "}) + strings.Join(spec, " "))
+				sig.WriteString(",range")
 			case k == 8: // wrong pre-apply checksum
 				spec := strings.Fields(v.peekCommit())
 				spec[2] = fmt.Sprintf("%016x", (v.chk^0x1234)|1<<63)
